@@ -4,7 +4,11 @@ proof:          lean/MPilot/Props/C16.lean (+ Generated/Eems2Table.lean, Generat
 correspondence: real Program.from_source on EEMS 2.0 / mixed files vs the model's whole pipeline (parse, conversion, loading): the loaded program
                 (result names, command classes, arguments, raw values, lines) and its execution
 oracles:        every mapped name resolves to an existing command in both library sets (known finding: the two ScoreRange rows); an EEMS 2.0 file and
-                the MPilot file written by hand from the mapping rule load to the same program and compute identical results
+                the MPilot file written by hand from the mapping rule load to the same program and compute identical results; a new field name that is
+                present but empty (`NewFieldName = ""`, `''`) is no new field name: the result is named after the input field (random models and directed
+                ones: empty new / input field names, OutFileName empty, result name given as well); the mapping applied to ONE parse result
+                (Parser().parse + utils.convert_eems2_commands) any number of times gives the same commands each time - those of the mapped MPilot file -
+                and leaves the parse tree as it was
 """
 import json
 import os
@@ -50,17 +54,22 @@ def v2_args(rng, v2name, cls, env, pools):
     return args
 
 
-def gen_model(rng, env, tbl, classes_by_name):
-    """returns (v2 text, v3 text, expected result names) for a random EEMS 2.0 model"""
+def gen_model(rng, env, tbl, classes_by_name, empty_new=False):
+    """returns (v2 text, v3 text, expected result names) for a random EEMS 2.0 model; empty_new: the first READ (and perhaps the second) carries a new field
+    name that is present but empty - form-generated files have such blank entries - and is therefore named after its input field"""
     pools = {"nonfuzzy": [], "fuzzy": []}
     v2, v3, names = [], [], []
     k = 0
     # reads
     for col in ("a", "b"):
         new = rng.choice([None, "Col_" + col])
+        if empty_new and (col == "a" or rng.random() < 0.5):
+            new = ""
         res = new or col
         # the file name is handed on as written (other spellings of the same path are not tidied up)
         a2 = [("InFileName", rng.choice(env.get("in_spellings", [env["in"]]))), ("InFieldName", Name(col))] + ([("NewFieldName", Name(new))] if new else [])
+        if new == "":
+            a2.append(("NewFieldName", rng.choice(["", Name("''")])))
         if rng.random() < 0.3:
             a2.append(("OutFileName", "ignored.csv"))
         rng.shuffle(a2)
@@ -100,6 +109,76 @@ def gen_model(rng, env, tbl, classes_by_name):
         v3.append(("Extra", "Copy", [("InFieldName", Name(pools["nonfuzzy"][0]))]))
         names.append("Extra")
     return v2, v3, names
+
+
+def directed_models(env):
+    """(EEMS 2.0 commands, MPilot commands or None when the mapped program cannot be written as an MPilot file) - the edges of "the new field name or else the
+    input field name": either of them present but empty, both, an empty output file, an explicit result name next to them"""
+    f = env["in"]
+    fz = [("TrueThreshold", 4), ("FalseThreshold", 1)]
+    E, E1 = "", Name("''")
+    out = []
+    for e in (E, E1):
+        out.append(([(None, "READ", [("InFileName", f), ("InFieldName", Name("a")), ("NewFieldName", e)]), (None, "CVTTOFUZZY", [("InFieldName", Name("a")), ("NewFieldName", Name("AFz"))] + fz),
+                     (None, "NOT", [("NewFieldName", Name("NotA")), ("InFieldName", Name("AFz"))])],
+                    [("a", "EEMSRead", [("InFileName", f), ("InFieldName", Name("a"))]), ("AFz", "CvtToFuzzy", [("InFieldName", Name("a"))] + fz), ("NotA", "FuzzyNot", [("InFieldName", Name("AFz"))])]))
+        out.append(([(None, "READ", [("NewFieldName", e), ("InFileName", f), ("InFieldName", Name("a")), ("OutFileName", E)]), (None, "READ", [("InFileName", f), ("NewFieldName", E), ("InFieldName", Name("b"))]),
+                     (None, "SUM", [("InFieldNames", [Name("a"), Name("b")]), ("NewFieldName", Name("S")), ("OutFileName", e)])],
+                    [("a", "EEMSRead", [("InFileName", f), ("InFieldName", Name("a"))]), ("b", "EEMSRead", [("InFileName", f), ("InFieldName", Name("b"))]), ("S", "Sum", [("InFieldNames", [Name("a"), Name("b")])])]))
+        # the input field's name is taken already: rejected as a duplicate in both forms
+        out.append(([(None, "READ", [("InFileName", f), ("InFieldName", Name("a"))]), (None, "COPYFIELD", [("InFieldName", Name("a")), ("NewFieldName", e)])],
+                    [("a", "EEMSRead", [("InFileName", f), ("InFieldName", Name("a"))]), ("a", "Copy", [("InFieldName", Name("a"))])]))
+        # an explicit result name wins over both
+        out.append(([("R", "READ", [("InFileName", f), ("InFieldName", Name("a")), ("NewFieldName", e)]), ("C", "COPYFIELD", [("InFieldName", Name("R")), ("NewFieldName", e)])],
+                    [("R", "EEMSRead", [("InFileName", f), ("InFieldName", Name("a"))]), ("C", "Copy", [("InFieldName", Name("R"))])]))
+        # an empty input field name and a new field name: named by the new one (reading the empty column fails alike in both forms)
+        out.append(([(None, "READ", [("InFileName", f), ("InFieldName", e), ("NewFieldName", Name("X"))])], [("X", "EEMSRead", [("InFileName", f), ("InFieldName", e)])]))
+        # both empty, and a new field name of blanks: no MPilot file says that (model only)
+        out.append(([(None, "READ", [("InFileName", f), ("InFieldName", e), ("NewFieldName", E)])], None))
+    out.append(([(None, "READ", [("InFileName", f), ("InFieldName", Name("a")), ("NewFieldName", " ")]), (None, "READ", [("InFileName", f), ("InFieldName", Name("b")), ("NewFieldName", "  ")])], None))
+    return out
+
+
+def node_shape(commands):
+    """result name, command name, arguments with names and exact values (kinds kept) of parsed / converted command nodes"""
+    from .. import parsing
+    return [[c.result_name, c.command, [[a.name, parsing._exact_value(a.value)] for a in c.arguments]] for c in commands]
+
+
+def repeated_conversion(ctx, s2, s3, desc):
+    """the mapping applied to one parse result more than once (one parse loaded under two library sets, a preview of the translation before loading): the same
+    commands every time - those the mapped MPilot file parses to - and the parse tree is left as it was"""
+    from mpilot.parser.parser import Parser
+    from mpilot.utils import convert_eems2_commands
+    from .. import parsing
+    try:
+        tree = Parser().parse(s2.source)
+    except SyntaxError:
+        return
+    before = parsing.canon_program(tree)
+    convs = []
+    for _ in range(3):
+        try:
+            convs.append(node_shape(convert_eems2_commands(tree.commands)))
+        except Exception as e:
+            convs.append(progrun.classify(e))
+    ctx.count("repeated_conversions")
+    after = parsing.canon_program(tree)
+    if convs[1] != convs[0] or convs[2] != convs[0]:
+        k = 1 if convs[1] != convs[0] else 2
+        diff = next(((x, y) for x, y in zip(convs[0], convs[k]) if x != y), None) if isinstance(convs[0], list) and isinstance(convs[k], list) else (convs[0], convs[k])
+        ctx.fail("the same parsed EEMS 2.0 commands translated a %s time (utils.convert_eems2_commands on one parse result) give another program: %r, the first time %r" % (
+            ["", "second", "third"][k], diff[1] if diff else convs[k], diff[0] if diff else convs[0]), dict(desc, how="tree = Parser().parse(eems2_source); convert_eems2_commands(tree.commands) three times"))
+    elif after != before:
+        ctx.fail("translating parsed EEMS 2.0 commands (utils.convert_eems2_commands) alters the parse tree it is given", dict(desc, parsed=before[:800], after_the_translation=after[:800]))
+    elif s3 is not None and isinstance(convs[0], list):
+        try:
+            want = node_shape(Parser().parse(s3.source).commands)
+        except SyntaxError:
+            return
+        if convs[0] != want:
+            diff = next(((x, y) for x, y in zip(convs[0] + [None], want + [None]) if x != y))
+            ctx.fail("the parsed EEMS 2.0 commands translate to other commands than the mapped MPilot file holds: %r vs %r" % diff, desc)
 
 
 def dump_program(p):
@@ -224,13 +303,21 @@ def run(ctx):
     by_name = dict((c.name, c) for c in classes)
     lines, metas = [], []
     tenc = "%d %s" % (len(tbl), " ".join("%s %s" % (enc_str(k), enc_str(v)) for k, v in tbl.items()))
-    for _ in range(ctx.budget(40, 1500)):
+    models = [(v2, v3, "directed") for v2, v3 in directed_models(env)]
+    for i in range(ctx.budget(40, 1500)):
         try:
-            v2, v3, names = gen_model(rng, env, {k: v for k, v in tbl.items() if v in by_name}, by_name)
+            # (every third model has new field names that are present but empty)
+            v2, v3, names = gen_model(rng, env, {k: v for k, v in tbl.items() if v in by_name}, by_name, empty_new=i % 3 == 1)
         except KeyError:
             continue
+        models.append((v2, v3, "empty-new-field-name" if i % 3 == 1 else "random"))
+    for v2, v3, how_made in models:
         s2 = Scenario(v2, wd=tmp, libs=LIBS)
-        s3 = Scenario(v3, wd=tmp, libs=LIBS)
+        s3 = Scenario(v3, wd=tmp, libs=LIBS) if v3 is not None else None
+        ctx.count("models:" + how_made)
+        repeated_conversion(ctx, s2, s3, {"eems2_source": s2.source, "mpilot_source": s3.source if s3 is not None else None})
+        if s3 is None:
+            s3 = s2            # (no MPilot file says the same: the file is compared with the model and with its own second load only)
         outs = []
         for sc in (s2, s3):
             try:
@@ -241,6 +328,8 @@ def run(ctx):
         ctx.case(s2.source, sample={"eems2": s2.source[:500], "mpilot": s3.source[:300], "loads": [o[0] for o in outs]})
         ctx.count("v2_commands:%d" % len(v2))
         desc = {"eems2_source": s2.source, "mpilot_source": s3.source}
+        if how_made != "random" and outs[0][0] != "ok" and outs[1][0] != "ok" and outs[0][0].split(":")[:2] != outs[1][0].split(":")[:2]:
+            ctx.fail("the EEMS 2.0 file is rejected with %s, its MPilot translation with %s" % (outs[0][0], outs[1][0]), desc)
         if outs[0][0] != outs[1][0] and not (outs[0][0] != "ok" and outs[1][0] != "ok"):
             ctx.fail("the EEMS 2.0 file %s but its MPilot translation %s" % ("loads" if outs[0][0] == "ok" else "fails with " + outs[0][0],
                                                                               "loads" if outs[1][0] == "ok" else "fails with " + outs[1][0]), desc)
